@@ -268,7 +268,8 @@ FieldSeqs(F, level, n, used, slots) ==
   (IF slots = 0 \/ n = 0 THEN {}
    ELSE UNION { UNION { { [f |-> << <<k, v.val>> >> \o r.f, n |-> 1 + v.n + r.n]
                           : r \in FieldSeqs(F, level, n - 1 - v.n, used \cup {k}, slots - 1) }
-                        : v \in FieldVals(F, level, n - 1) }
+                        : v \in (IF k = JUNK THEN {x \in FieldVals(F, level, n - 1) : x.n = 0 /\ x.val.t = 0}
+                                  ELSE FieldVals(F, level, n - 1)) }      \* the marker member always holds a scalar
                 : k \in F.keys \ used })
 FieldVals(F, level, n) ==
   {[val |-> LeafVal(c), n |-> 0] : c \in F.leaves} \cup
@@ -398,7 +399,7 @@ QuickFams == <<
   Fam({1, 2, 3}, <<2, 1>>, 2, AllLeaves, {1, 2, 3}, 2, {2}, "desc", FALSE),
   \* 6, 7: wide objects over four names (two of them dotted): order of survivors, flat and nested selectors
   Fam({1, 2, 3, 4}, <<4, 2>>, 4, {1}, {1, 2, 3, 4}, 1, {1, 2, 3}, "both", FALSE),
-  Fam({1, 2, 3, 4}, <<4, 2>>, 4, {1}, {1, 2, 3, 4}, 2, {1, 2}, "asc", FALSE),
+  Fam({1, 2, 3, 4}, <<3, 2>>, 4, {1}, {1, 2, 3, 4}, 2, {1, 2}, "asc", FALSE),
   \* 8: flat objects with up to 5 members (three dotted names), 1-3 one-element selectors: order after several deletions
   Fam({1, 2, 3, 4, 5}, <<5>>, 5, {1}, {1, 2, 3, 4, 5}, 1, {1, 2, 3}, "both", FALSE),
   \* 9, 10: WIDE: documents with the marker member (widened by the harness) before / after / inside nested objects
